@@ -126,7 +126,7 @@ def run(tier, config):
             ups.append((bi in body_blocks, b.render_rvalue(rv, 4, names=False)))
         outside = [r for inl, r in ups if not inl]
         inside = [r for inl, r in ups if inl]
-        ok_out = outside in (["(arg1 + 1usize).0"], ["usize::saturating_add(arg1, 1usize)"], ["(var:usize + 1usize).0"], ["usize::saturating_add(var:usize, 1usize)"])
+        ok_out = outside in (["(arg1 + 1usize).0"], ["num::saturating_add(arg1, 1usize)"], ["usize::saturating_add(arg1, 1usize)"], ["(var:usize + 1usize).0"], ["usize::saturating_add(var:usize, 1usize)"], ["num::saturating_add(var:usize, 1usize)"])
         ok_in = inside in (["(arg1 - 1usize).0"], ["(var:usize - 1usize).0"])
         rep.add("gamedig::utils::retry_on_timeout|attempts", "C10:D3", ok_out and ok_in,
                 "counter updates outside loop %s, inside loop %s (expected +1 once, -1 per iteration => at most r+1 attempts)" % (outside, inside), f["span"])
